@@ -22,11 +22,17 @@ CancelByToken(st, s, tok) ==
                 !.out = [k \in (DOMAIN st.out) \cup K |-> IF k \in K THEN "resp" ELSE st.out[k]]]
 
 (* Piggybacked response (type ACK, non-empty code) with message id mid.     *)
+\* What the receiver remembers of the message ids it has seen.  The design (and RFC 7252 section 4.5) is "all of them, for
+\* EXCHANGE_LIFETIME".  cfg.oneDeep is libcoap as it is built: one id per session and type (last_ack_mid / last_con_mid), and a
+\* response whose id is not that one is delivered whether or not its exchange is still open - the mechanism of KF_C07_OLD_DUPLICATE,
+\* which MC_Reliability_onedeep.cfg lets TLC find.
+OneDeep(st) == "oneDeep" \in DOMAIN st.cfg /\ st.cfg.oneDeep
+Remember(st, seen, mid) == IF OneDeep(st) THEN {mid} ELSE seen \cup {mid}
 RxPiggy_do(st, s, mid, tok) ==
   LET k == <<s, mid>>
       s1 == IF k \in DOMAIN st.fl THEN Conclude(st, k, "resp") ELSE st
-      s2 == [s1 EXCEPT !.seenAck[s] = @ \cup {mid}]
-  IN IF Open(st, s, tok) /\ mid \notin st.seenAck[s]
+      s2 == [s1 EXCEPT !.seenAck[s] = Remember(st, @, mid)]
+  IN IF (IF OneDeep(st) THEN Known(st, s, tok) ELSE Open(st, s, tok)) /\ mid \notin st.seenAck[s]
      THEN Owe(s2, ODeliverT(s, mid, ACK, tok))
      ELSE s2
 
@@ -36,9 +42,9 @@ RxPiggy_do(st, s, mid, tok) ==
 RxSepCon_do(st, s, mid, tok) ==
   LET dup == mid \in st.seenCon[s]
       s1  == CancelByToken(st, s, tok)
-      s2  == [s1 EXCEPT !.seenCon[s] = @ \cup {mid}]
+      s2  == [s1 EXCEPT !.seenCon[s] = Remember(st, @, mid)]
   IN IF dup THEN Owe(s1, IF mid \in st.failCon[s] THEN OReply(s, mid) ELSE OAck(s, mid))
-     ELSE IF Open(st, s, tok) THEN Owe(s2, ODeliverT(s, mid, CON, tok))
+     ELSE IF Open(st, s, tok) \/ (OneDeep(st) /\ Known(st, s, tok)) THEN Owe(s2, ODeliverT(s, mid, CON, tok))
      ELSE [s2 EXCEPT !.broken = TRUE]   \* a second, different response to a concluded exchange:
                                         \* the peer is not a de-duplicating server (outside C07)
 
